@@ -154,15 +154,15 @@ func raceGlobalLevel(c *Ctx) {
 						judgedFiltered++
 						if inv["func_callbacks"]+inv["msgfunc_callbacks"]+inv["object_marshaler_calls"] != 0 {
 							c.Violate(Violation{Key: "filtered-event-not-inert", Monitor: "gate-concurrent-global",
-								Desc:     fmt.Sprintf("logger level %d, global level alternating between %d and %d (concurrently): %s (level %d) is filtered under both, yet %v of %d calls ran their callbacks", L, A, B, en.name, en.lvl, inv, sent),
-								Case:     base(en), Observed: inv, Expected: map[string]int64{"func_callbacks": 0, "msgfunc_callbacks": 0, "object_marshaler_calls": 0}})
+								Desc: fmt.Sprintf("logger level %d, global level alternating between %d and %d (concurrently): %s (level %d) is filtered under both, yet %v of %d calls ran their callbacks", L, A, B, en.name, en.lvl, inv, sent),
+								Case: base(en), Observed: inv, Expected: map[string]int64{"func_callbacks": 0, "msgfunc_callbacks": 0, "object_marshaler_calls": 0}})
 						}
 					case always:
 						judgedAdmitted++
 						if inv["func_callbacks"] != sent || inv["msgfunc_callbacks"] != sent || inv["object_marshaler_calls"] != sent {
 							c.Violate(Violation{Key: "gate-wrong", Monitor: "gate-concurrent-global",
-								Desc:     fmt.Sprintf("logger level %d, global level alternating between %d and %d (concurrently): %s (level %d) is admitted under both, yet of %d calls only %v were built", L, A, B, en.name, en.lvl, sent, inv),
-								Case:     base(en), Observed: inv, Expected: sent})
+								Desc: fmt.Sprintf("logger level %d, global level alternating between %d and %d (concurrently): %s (level %d) is admitted under both, yet of %d calls only %v were built", L, A, B, en.name, en.lvl, sent, inv),
+								Case: base(en), Observed: inv, Expected: sent})
 						}
 					}
 					if seenLvl[en.lvl] {
@@ -174,14 +174,14 @@ func raceGlobalLevel(c *Ctx) {
 					case never:
 						if wr != 0 || hk != 0 {
 							c.Violate(Violation{Key: "gate-wrong", Monitor: "gate-concurrent-global",
-								Desc:     fmt.Sprintf("logger level %d, global level alternating between %d and %d (concurrently): events of level %d are filtered under both values, yet %d were written and the hook ran %d times (of %d calls)", L, A, B, en.lvl, wr, hk, callsAt[en.lvl]),
-								Case:     base(en), Observed: map[string]int64{"written": wr, "hook_runs": hk}, Expected: map[string]int64{"written": 0, "hook_runs": 0}})
+								Desc: fmt.Sprintf("logger level %d, global level alternating between %d and %d (concurrently): events of level %d are filtered under both values, yet %d were written and the hook ran %d times (of %d calls)", L, A, B, en.lvl, wr, hk, callsAt[en.lvl]),
+								Case: base(en), Observed: map[string]int64{"written": wr, "hook_runs": hk}, Expected: map[string]int64{"written": 0, "hook_runs": 0}})
 						}
 					case always:
 						if wr != callsAt[en.lvl] || hk != callsAt[en.lvl] {
 							c.Violate(Violation{Key: "gate-wrong", Monitor: "gate-concurrent-global",
-								Desc:     fmt.Sprintf("logger level %d, global level alternating between %d and %d (concurrently): events of level %d are admitted under both values, yet of %d calls %d were written and the hook ran %d times", L, A, B, en.lvl, callsAt[en.lvl], wr, hk),
-								Case:     base(en), Observed: map[string]int64{"written": wr, "hook_runs": hk}, Expected: callsAt[en.lvl]})
+								Desc: fmt.Sprintf("logger level %d, global level alternating between %d and %d (concurrently): events of level %d are admitted under both values, yet of %d calls %d were written and the hook ran %d times", L, A, B, en.lvl, callsAt[en.lvl], wr, hk),
+								Case: base(en), Observed: map[string]int64{"written": wr, "hook_runs": hk}, Expected: callsAt[en.lvl]})
 						}
 					}
 				}
@@ -260,16 +260,16 @@ func customLevelNames(c *Ctx) {
 			cs := map[string]interface{}{"level": l, "customisation": how, "naming": n}
 			if merr != nil || uerr != nil || perr != nil || int(back) != l || int(p) != l {
 				c.Violate(Violation{Key: "level-text-roundtrip", Monitor: "level-roundtrip-custom-names",
-					Desc:     fmt.Sprintf("%s = %q: Level(%d).MarshalText() = %q (%v); UnmarshalText of it -> %d (%v); ParseLevel of it -> %d (%v)", how, n.Name, l, mt, merr, back, uerr, p, perr),
-					Case:     cs, Observed: map[string]interface{}{"text": string(mt), "unmarshal": int(back), "parse": int(p)}, Expected: l})
+					Desc: fmt.Sprintf("%s = %q: Level(%d).MarshalText() = %q (%v); UnmarshalText of it -> %d (%v); ParseLevel of it -> %d (%v)", how, n.Name, l, mt, merr, back, uerr, p, perr),
+					Case: cs, Observed: map[string]interface{}{"text": string(mt), "unmarshal": int(back), "parse": int(p)}, Expected: l})
 			}
 			if viaString {
 				s := lv.String()
 				q, qerr := zerolog.ParseLevel(s)
 				if qerr != nil || int(q) != l {
 					c.Violate(Violation{Key: "level-text-roundtrip", Monitor: "level-roundtrip-custom-names",
-						Desc:     fmt.Sprintf("%s = %q: Level(%d).String() = %q; ParseLevel of it -> %d (%v)", how, n.Name, l, s, q, qerr),
-						Case:     cs, Observed: map[string]interface{}{"text": s, "parse": int(q)}, Expected: l})
+						Desc: fmt.Sprintf("%s = %q: Level(%d).String() = %q; ParseLevel of it -> %d (%v)", how, n.Name, l, s, q, qerr),
+						Case: cs, Observed: map[string]interface{}{"text": s, "parse": int(q)}, Expected: l})
 				}
 			}
 		}
